@@ -9,6 +9,10 @@ for l in open('/verif/properties.jsonl'):
 
 # id -> (technique, level text, level note, design ref, engine)
 CHECKS = {
+    'C03': ("exhaustive enumeration of 1-cut/2-cut segmentations over a 27-message corpus + proptest over generated message sequences and k-cut/dribble segmentations, fed through the real FramedRead<StreamingDecoder>; oracle = differential against the datagram parser (named by the statement) cross-checked with the generator's record",
+            "exploration: every 1-cut of every corpus message and of 2-message pipelines with keep-alive patterns, every 2-cut in thorough (1.18 M segmentations), random sequences with decoy headers, all Content-Length spellings, bodies up to 65535 B, heads up to 4096 B",
+            "trusts tokio_util FramedRead, the datagram parser as reference (body and header count cross-checked against the generator), hook H1",
+            "DESIGN.md 3/C03", "E-codec"),
     'C05': ("proptest + exhaustive grid enumeration of scripted response arrivals under a paused tokio clock; oracle = RFC 3261 timer reference model",
             "exploration: every first-response instant that brackets a timer edge is enumerated for both transaction kinds and reliabilities, response tails are sampled; decides send instants, byte identity, timeout instant, T4 absorber",
             "trusts tokio's paused clock, hook H2 (tokio Instant in transactions), the 40-line ref_tsx schedule model and the mock transport",
